@@ -39,24 +39,58 @@ func TestMain(m *testing.M) { os.Exit(report.ExitCode(m.Run())) }
 const marker = "\x1bjson" // the embed marker of errors.EmbedObject (errors/errors.go:103)
 
 type class struct {
-	name  string
-	err   error
-	coded bool // the class is a key of the class -> code table (errors/grpc.go:38-49)
+	name string
+	err  error
+	base bool // the class is a key of the class -> code table of the unchanged library (errors/grpc.go:38-49)
+	// derived: the tree under test gives the class a gRPC code of its own - the code that GRPCWrap gives
+	// an error of the class maps back to the class (deriveCoded)
+	derived bool
+	coded   bool // base || derived: the per-class monitors are applied to the class
 }
 
+// classes are all exported class sentinels of the errors package (errors/errors.go:52-91).
 var classes = []class{
-	{"ErrExist", gerrors.ErrExist, true},
-	{"ErrNotExist", gerrors.ErrNotExist, true},
-	{"ErrClosed", gerrors.ErrClosed, false},
-	{"ErrInvalid", gerrors.ErrInvalid, true},
-	{"ErrNotAuthorized", gerrors.ErrNotAuthorized, true},
-	{"ErrDataLoss", gerrors.ErrDataLoss, true},
-	{"ErrCommunication", gerrors.ErrCommunication, false},
-	{"ErrInternal", gerrors.ErrInternal, true},
-	{"ErrConflict", gerrors.ErrConflict, true},
-	{"ErrExhausted", gerrors.ErrExhausted, true},
-	{"ErrUnimplemented", gerrors.ErrUnimplemented, true},
-	{"ErrCanceled", gerrors.ErrCanceled, true},
+	{name: "ErrExist", err: gerrors.ErrExist, base: true},
+	{name: "ErrNotExist", err: gerrors.ErrNotExist, base: true},
+	{name: "ErrClosed", err: gerrors.ErrClosed},
+	{name: "ErrInvalid", err: gerrors.ErrInvalid, base: true},
+	{name: "ErrNotAuthorized", err: gerrors.ErrNotAuthorized, base: true},
+	{name: "ErrDataLoss", err: gerrors.ErrDataLoss, base: true},
+	{name: "ErrCommunication", err: gerrors.ErrCommunication},
+	{name: "ErrInternal", err: gerrors.ErrInternal, base: true},
+	{name: "ErrConflict", err: gerrors.ErrConflict, base: true},
+	{name: "ErrExhausted", err: gerrors.ErrExhausted, base: true},
+	{name: "ErrUnimplemented", err: gerrors.ErrUnimplemented, base: true},
+	{name: "ErrCanceled", err: gerrors.ErrCanceled, base: true},
+}
+
+// deriveCoded determines, from the tree under test, which classes "have a gRPC code": class c has one
+// iff the code k that GRPCWrap gives an error of class c (the sentinel itself) maps back to c, i.e.
+// errors.Is(FromGRPCError(status.Error(k, "x")), c). A class that only falls to the default code
+// (Internal, which maps back to ErrInternal) has none. It sets derived and coded of every class and
+// returns what it saw per class (for the evidence) and the names of the derived set.
+func deriveCoded() (perClass map[string]any, derived []string) {
+	perClass = map[string]any{}
+	for i := range classes {
+		c := &classes[i]
+		var k codes.Code
+		var back error
+		c.derived = false
+		if f := guarded("GRPCWrap/FromGRPCError", func() {
+			k = status.Code(gerrors.GRPCWrap(c.err))
+			back = gerrors.FromGRPCError(status.Error(k, "x"))
+		}); f != nil {
+			perClass[c.name] = map[string]any{"panic": f.what, "has_code": false, "in_unchanged_library": c.base}
+		} else {
+			c.derived = back != nil && errors.Is(back, c.err)
+			perClass[c.name] = map[string]any{"wrapped_code": k.String(), "code_maps_back_to": fmt.Sprint(back), "has_code": c.derived, "in_unchanged_library": c.base}
+		}
+		c.coded = c.base || c.derived
+		if c.derived {
+			derived = append(derived, c.name)
+		}
+	}
+	return
 }
 
 func classByName(n string) (int, bool) {
@@ -675,13 +709,14 @@ func (w *walk) explore(run *report.Run, err error, plainMsg string, layers []lay
 func TestCheck(t *testing.T) {
 	run := report.New("C19", "exploration")
 	defer run.Finish(t)
-	run.Rule("distinct (innermost error {class sentinel, real OS error of the class}, asked class, wrapping chain, embedding {none, inner x object, outer x object}) tuples for which Is(GRPCWrap(chain), asked class) was evaluated, plus distinct (gRPC code, message) pairs of the code -> class direction; the enumeration visits each tuple once. " +
+	run.Rule("the classes that have a gRPC code are determined from the tree under test, over all twelve exported class sentinels (see the assumptions); for each of them: distinct (innermost error {class sentinel, real OS error of the class}, asked class, wrapping chain, embedding {none, inner x object, outer x object}) tuples for which Is(GRPCWrap(chain), asked class) was evaluated, plus distinct (gRPC code, message) pairs of the code -> class direction; the enumeration visits each tuple once. " +
 		"Chains: every sequence of depth <= 3 over the alphabet {single-%w x corpus texts, two-%w with the class last, two-%w with the class first, errors.Join with the class last / first, pointer type with Unwrap() []error, slice type with Unwrap() []error}, plus every depth-4 sequence of single-%w texts. " +
 		"Objects: 3 crossed with every chain; 7 whose JSON contains '%' crossed with the chains of depth <= 2. " +
 		"Real OS errors (produced at run time): chains of depth <= 3 without object, depth <= 2 with the objects hostile-struct and pct-struct. " +
 		"Text-stress family: chains of depth <= 2 (thorough 3) with exactly one layer whose text is the text of one of the twelve class sentinels (first, last, quoted), the rendering of one of the 17 gRPC codes, or a long text (5 KB, 70 KB), the other layers from the alphabet above, with the 3 objects and two big objects (JSON of 5 KB and 70 KB; those also under plain chains); the code -> class direction also over messages that are / end with / start with each class text and long messages, and the class of a code must not depend on the message")
 	run.Assume("the layer texts contain parts of the embed marker but a chain whose text (without the embedding) contains the complete marker \\x1bjson - possible only where two corpus texts meet - is outside EmbedObject's contract and is not generated (counted in chains_excluded_marker_formed)")
-	run.Assume("'classes that have a gRPC code' are the ten keys of errorsToCode; ErrClosed and ErrCommunication take part as asked classes only")
+	run.Assume("'a class that has a gRPC code' is decided by the tree under test for each of the twelve exported class sentinels: class c has one iff the code k that GRPCWrap gives an error of class c maps back to c, errors.Is(FromGRPCError(status.Error(k, \"x\")), c) (a class that only falls to the default Internal -> ErrInternal has none); the derived set is recorded in classes_with_a_grpc_code. " +
+		"Every monitor (is-class, is-other, code maps back, idempotence, extractability) is applied to every class of the derived set and, so that a class which loses its code is noticed, also to the ten classes that have a code in the unchanged library (keys of errorsToCode, errors/grpc.go:38-49); on the unchanged library the two sets are the same ten. The remaining classes (there: ErrClosed and ErrCommunication) take part as asked classes only")
 	run.Assume("idempotence of GRPCWrap is judged on code, status message and Error() text, not on pointer identity; the object is compared after JSON decoding into its own type")
 	run.Assume("the second error of the non-linear shapes is errors.New(\"side failure\"), which is in no class; a real OS error is used only if, before wrapping, errors.Is says it is of its class and of no other class (otherwise listed in os_errors_not_used)")
 
@@ -692,6 +727,19 @@ func TestCheck(t *testing.T) {
 	}
 	defer os.RemoveAll(dir)
 	allOS := osRoots(dir)
+
+	perClass, derived := deriveCoded()
+	var monitored []string
+	for _, c := range classes {
+		if c.coded {
+			monitored = append(monitored, c.name)
+		}
+	}
+	run.Note("classes_with_a_grpc_code", map[string]any{"derived_from_the_tree_under_test": derived, "monitored": monitored, "per_class": perClass})
+	if len(derived) == 0 {
+		run.Inconclusive("no class of the tree under test has a gRPC code that maps back to it: the set of classes to judge could not be derived")
+		return
+	}
 
 	if p := os.Getenv("VERIF_REPLAY"); p != "" {
 		replay(run, p, allOS)
@@ -931,7 +979,7 @@ func TestCheck(t *testing.T) {
 		layerNames = append(layerNames, l.Name)
 	}
 	run.Note("space", map[string]any{
-		"coded_classes": coded, "asked_classes": len(classes), "layer_texts": len(corpus), "layer_shapes": len(shapes),
+		"coded_classes": coded, "coded_classes_derived": len(derived), "asked_classes": len(classes), "layer_texts": len(corpus), "layer_shapes": len(shapes),
 		"depth_any_layer": 3, "depth_text_layers_only": maxDepth, "depth_percent_objects_and_os_objects": shallowDepth,
 		"objects": objNames, "grpc_codes": 17, "messages_per_code": len(msgs),
 	})
